@@ -90,7 +90,8 @@ def Prim.valid : Prim → Ans → Prop
   | .f32, .bits w => w.toNat < 2 ^ 32   -- further: the f32 lies in [0,1); see `F32.unit`
   | .bool, .bool _ => True
   | .boolP _, .bool _ => True
-  | .ratio _ _, .bool _ => True
+  -- `Bernoulli::from_ratio(num, den)`: probability 0 never yields `true`, probability 1 never `false`
+  | .ratio num den, .bool b => (b = true → 0 < num) ∧ (b = false → num < den)
   | .range lo hi, .nat n => lo ≤ n ∧ n < hi
   | .rangeIncl lo hi, .nat n => lo ≤ n ∧ n ≤ hi
   | .uniform n, .nat i => i < n
@@ -99,7 +100,8 @@ def Prim.valid : Prim → Ans → Prop
   | .chooseDistr n, .nat i => i < n
   | .chooseMultiple n k, .idxs l => l.length = min k n ∧ l.Nodup ∧ ∀ i ∈ l, i < n
   | .chooseWeighted ws, .nat i => ∃ h : i < ws.length, 0 < ws[i]
-  | .chooseWeighted ws, .err => ws.all (· == 0)
+  -- `WeightError::InsufficientNonZero` (all weights 0) or `WeightError::Overflow` (the `usize` total)
+  | .chooseWeighted ws, .err => ws.all (· == 0) = true ∨ 2 ^ 64 ≤ ws.sum
   | .shuffle n, .idxs l => l.length = n ∧ l.Nodup ∧ ∀ i ∈ l, i < n
   | .user _, .nat _ => True
   | _, _ => False
